@@ -2,6 +2,7 @@
 #include <algorithm>
 #include <chrono>
 #include <cinttypes>
+#include <csignal>
 #include <cstdio>
 #include <cstdlib>
 #include <cstring>
@@ -29,7 +30,7 @@
 // restarts the worker behind it and confirms the index in a fresh process.
 extern "C" __attribute__( ( used, visibility( "default" ) ) ) const char* __asan_default_options()
 {
-   return "detect_leaks=0:exitcode=77:print_summary=0:detect_stack_use_after_return=0:max_malloc_fill_size=0:abort_on_error=0:handle_abort=1";
+   return "detect_leaks=0:exitcode=77:print_summary=0:detect_stack_use_after_return=0:max_malloc_fill_size=0:abort_on_error=0";
 }
 
 namespace
@@ -37,6 +38,20 @@ namespace
    volatile std::uint64_t* g_status = nullptr;  // [0] = index being run, [1] = 1 finished / 2 sanitizer report
 }
 void sim_emit_partial();
+
+extern "C" void sim_on_abort( int )
+{
+   // failed assert() / std::terminate: a crash, not a sanitizer report
+   if( g_status ) {
+      g_status[ 1 ] = 3;
+   }
+   sim_emit_partial();
+   std::signal( SIGABRT, SIG_DFL );
+   std::raise( SIGABRT );
+}
+
+void sim_emit_partial();
+extern "C" void sim_on_abort( int );
 
 extern "C" __attribute__( ( used, visibility( "default" ) ) ) void __asan_on_error()
 {
@@ -543,6 +558,7 @@ int main( int argc, char** argv )
       }
    }
    sim::W.h.reserve( 65536 );
+   std::signal( SIGABRT, sim_on_abort );
    const std::string cmd = argv[ 1 ];
    const Args a = parse_args( argc, argv, 2 );
    if( cmd == "run" ) {
